@@ -5,6 +5,7 @@ import Duckling.Lemmas.LexDigits
 import Duckling.Lemmas.LexName
 import Duckling.Lemmas.LexFlat
 import Duckling.Lemmas.LexFlatB
+import Duckling.Lemmas.LexExpr
 /-
   C04 — expressions evaluate with the documented precedence and typing.
 
@@ -42,6 +43,13 @@ import Duckling.Lemmas.LexFlatB
                                  written without blanks (`C04_layout_independent`), for flat arithmetic of any length;
   * `C04_flat_value`            **end to end**: `Tokenizer.tokenize` of such a text is the evaluation of the reference precedence parse (`refL`,
                                  Stage A) of those tokens — scanner, tree builder and evaluator composed.
+  * `C04_lex_expr`              **flat expressions over every kind of leaf value** — unsigned numbers, variable names (ANY set of names in
+                                 scope, prefixes of one another included; first letter not T/F), TRUE / FALSE, string literals (any text without a
+                                 quotation mark, blanks and operator characters included) — joined by any of the fourteen operators, with any
+                                 layout of blanks, any length: the scanner produces exactly the alternating value / operator tokens;
+  * `C04_expr_value`            and `Tokenizer.tokenize` of such a text is the evaluation of the reference precedence parse of those tokens.
+                                 What the scanner theorems leave out: parenthesised groups (one token for the scanner, evaluated by a recursive
+                                 call), `!( )`, signed and decimal literals, names beginning with T/F inside compound expressions.
   That the scanner recognises every rendering of a compound expression (operators, blanks, parentheses, strings, names) is validated
   by the correspondence only (DESIGN.md C04) — `partial` in that respect.
 -/
@@ -186,6 +194,30 @@ example : GoodNum "12".toList ∧ GoodRest [("+".toList, .math, "3".toList), ("*
   intro t ht
   simp only [List.mem_cons, List.mem_nil_iff, or_false] at ht
   rcases ht with rfl | rfl <;> exact ⟨by decide, by decide, by decide⟩
+
+theorem C04_lex_expr (names : List Str) (hn : NamesOk names) (lead : Str) (a : Atom) (rest : ExprRest) (trail : Str)
+    (hlead : AllSp lead) (htrail : AllSp trail) (ha : GoodAtom names a) (hrest : GoodExprRest names rest) :
+    lex names (exprText lead a rest trail) = .ok (exprToks a rest) := lex_expr names hn lead a rest trail hlead htrail ha hrest
+
+theorem exprPairs_opsIn (names : List Str) (rest : ExprRest) (hrest : GoodExprRest names rest) : OpsIn ranks (exprPairs rest) := by
+  intro o ho
+  simp only [ops, exprPairs, List.map_map, List.mem_map, Function.comp] at ho
+  obtain ⟨t, ht, rfl⟩ := ho
+  have hr := opInfo_ranked (t.2.1, t.2.2.1) (hrest t ht).2.1
+  simp only [List.any_eq_true] at hr
+  obtain ⟨r, hrm, hrc⟩ := hr
+  exact ⟨fun o => r.contains (String.ofList o), by simp only [ranks, List.mem_map]; exact ⟨r, hrm, rfl⟩, hrc⟩
+
+/-- **scanner, tree builder and evaluator composed** on flat expressions over numbers, names, TRUE/FALSE and strings -/
+theorem C04_expr_value (vars : VarEnv) (hn : NamesOk (vars.map (·.1))) (lead : Str) (a : Atom) (rest : ExprRest) (trail : Str)
+    (hlead : AllSp lead) (htrail : AllSp trail) (ha : GoodAtom (vars.map (·.1)) a) (hrest : GoodExprRest (vars.map (·.1)) rest) :
+    tokenize vars (exprText lead a rest trail) =
+      (evalTree vars (3 * (exprText lead a rest trail).length + 9)
+        (refL ranks.reverse (Tree.leaf a.tok) (exprPairs rest)) >>= fun v => .ok v.normalise) := by
+  unfold tokenize evalFuel
+  rw [solveOpp]
+  simp only [lex_expr _ hn lead a rest trail hlead htrail ha hrest, Outcome.bind_ok, toFlat_exprToks,
+    C04_build _ _ (exprPairs_opsIn _ rest hrest), List.isEmpty_nil, Bool.not_true, Bool.false_eq_true, if_false]
 
 theorem C04_lex_name (names : List Str) (x : Str) (hin : names.contains x = true) (hlen : 0 < x.length) (hc : NameStart (x[0])) :
     lex names x = .ok [⟨.var, x, false⟩] := lex_name names x hin hlen hc
